@@ -39,11 +39,10 @@ theorem liveEntries_pairwise (s : Nat) (bs : List LBlock) : (liveEntries s bs).P
     have := liveEntries_range (s + b.payload.length) bs e he
     left; simp only [liveEntry]; omega
 
-theorem decTable_image (l : Lay) (ok : l.Ok) :
-    ∃ h : Header, h.nEntries = (l.n : Int) ∧ decTable.run l.image = some ((h, l.table), dataOf l.bs) := by
-  obtain ⟨h, hn, hp⟩ := ok.hdr_parse
+theorem decTable_image_of (l : Lay) (ok : l.Ok) (h : Header) (hn : h.nEntries = (l.n : Int))
+    (hp : ∀ rest, Header.dec.run (l.hdr ++ rest) = some (h, rest)) :
+    decTable.run l.image = some ((h, l.table), dataOf l.bs) := by
   have hlen : l.table.length = l.n := by simp [Lay.table, ok.count]
-  refine ⟨h, hn, ?_⟩
   unfold decTable Lay.image
   simp only [D.bind_eq, List.append_assoc]
   rw [D.bind_run_of _ _ _ _ _ (hp _)]
@@ -53,6 +52,11 @@ theorem decTable_image (l : Lay) (ok : l.Ok) :
   rw [this]
   rw [D.bind_run_of _ _ _ _ _ (D.rep_run Entry.dec Entry.enc l.table _ (fun e he r => Entry.dec_enc e (ok.valid e he) r))]
   rfl
+
+theorem decTable_image (l : Lay) (ok : l.Ok) :
+    ∃ h : Header, h.nEntries = (l.n : Int) ∧ decTable.run l.image = some ((h, l.table), dataOf l.bs) := by
+  obtain ⟨h, hn, hp⟩ := ok.hdr_parse
+  exact ⟨h, hn, decTable_image_of l ok h hn hp⟩
 
 theorem wfTable_of_lay (l : Lay) (ok : l.Ok) : WFTable l.n l.image.length l.table := by
   refine ⟨?_, ?_, ?_⟩
